@@ -584,6 +584,39 @@ def gen_cases(dirid, calc, tier):
                     u.kids.append(N(k.name, second_legal(k)))
             yield from both(c, "H-subset")
 
+    # I: heterogeneous repetitions of a list element: element A supplies item L (a leaf with a legal non-default
+    #    value, or an OPTIONAL subtree), element B omits it; every arrangement of A and B over 2 (thorough: also 3)
+    #    repetitions that contains both; every leaf / OPTIONAL subtree below every template of every list section
+    for p in inner:
+        if "list" not in p[-1].attrs:
+            continue
+        for t in p[-1].kids:
+            base = p + [t]
+            items = [q for q in paths if len(q) >= len(base) and all(x is y for x, y in zip(q, base))
+                     and (not q[-1].kids or q[-1].attrs.get("default") == "OPTIONAL")]
+            for q in items:
+                L = q[-1]
+                for n in ((2, 3) if thorough else (2,)):
+                    for mask in range(1, (1 << n) - 1):      # bit k set: repetition k is an A
+                        c = Ctx(desc)
+                        for k in range(n):
+                            if mask >> k & 1:
+                                u = c.ensure(q, {id(t): k})
+                                if not L.kids:
+                                    u.value = second_legal(L) if (L is not t or "choices" in L.attrs) else "elemA"
+                            else:
+                                c.ensure(base, {id(t): k})
+                        c = c.completed()
+                        if needs_input(L):                     # completion filled L in the B elements: take it out again
+                            for k in range(n):
+                                if not mask >> k & 1:
+                                    u = c.ensure(base, {id(t): k})
+                                    for d in q[len(base):-1]:
+                                        u = u.last(d.name) if u is not None else None
+                                    if u is not None and L is not t:
+                                        u.kids = [x for x in u.kids if x.name != L.name]
+                        yield "I-hetero-list/%d" % n, (), c.user
+
     # F: pairs of leaves, both set to a legal non-default value (+ siblings reversed; + second one illegal)
     span = 10 ** 9 if thorough else 6
     for i in range(len(leaves)):
@@ -664,7 +697,9 @@ RULE = ("alphabet: every calculator description in xtp/share/xtp/xml (28 files, 
         "orders; D an undeclared name below every node (inside unchecked sections: three shapes, with and without a user-side "
         "unchecked attribute); E every REQUIRED node removed from a context that activates it; F pairs of leaves i<j "
         "(quick: j-i<=6; thorough: all pairs) + sibling order reversed + second value illegal; G additional choice 'jobfile'; "
-        "H all subsets of the first K (quick 5, thorough 8) leaf children of every section / list element. B,C,H both as is and "
+        "H all subsets of the first K (quick 5, thorough 8) leaf children of every section / list element; I every list section x "
+        "every template x every leaf or OPTIONAL subtree L below it: 2 (thorough also 3) repetitions where some supply L and the "
+        "others omit it, all arrangements (each repetition must resolve against the pristine template). B,C,H both as is and "
         "with all REQUIRED nodes of the touched sections filled in; D also with a user-side unchecked= attribute (two readings allowed). "
         "oracle: independent interpreter of the description format predicting the full resolved tree (path->trimmed value for "
         "declared leaves and unchecked copies, presence for sections) or 'rejected, message names one of X'. "
@@ -703,7 +738,7 @@ def main():
                 rep.fail(key, "[%s %s] %s" % (calc, fam, what), case_string(dirid, calc, extra, xml))
             elif len(xml) < 260:
                 kind = cls if cls.startswith("reject") else "ok/" + fam.split("/")[0]
-                if kind not in sampled and fam[0] in "BCEH":   # one written-out case per outcome kind
+                if kind not in sampled and fam[0] in "BCEHI":   # one written-out case per outcome kind
                     sampled.add(kind)
                     rep.samples.insert(0 if kind.startswith("ok") and len(sampled) % 2 else len(rep.samples),
                                        "%s %s: %s -> %s" % (calc, fam, xml, cls if cls.startswith("reject") else
